@@ -290,6 +290,12 @@ TEMPLATES = [            # (template, N is a bare token)
 ]
 
 
+def keyword_token(template, bare):
+    """True when N stands as a keyword token in the template.  `__x__(` is a FUNC token: the lexer's (?!__)
+    guard is on keywords only, so dunder *call* names reach resolution and are judged for containment only."""
+    return bare and not (template.count('N') == 1 and 'N(' in template)
+
+
 def job_forms(tier):
     res = Result()
     guard()
@@ -302,6 +308,7 @@ def job_forms(tier):
         out, found = run(text, {'c': VARIANTS[variant]()})
         tally(res, out)
         cls = 'dunder' if name.startswith('__') else 'underscore' if name.startswith('_') else 'public'
+        bare = keyword_token(template, bare)
         if bare and name.startswith('__') and out[0] != 'lex':
             res.fail('dunder-token-accepted form=%s' % template, case,
                      '%s: a token beginning with __ must be a lexical error, observed %r' % (text, out[:2]))
@@ -525,8 +532,10 @@ def settings_of(switches, w, b, r):
 def policy_key(settings, access, name, kwargs, exp, obs):
     d = P.decide(settings, access, name, kwargs)
     touched = [x for x in obs[1] if x[0] != 'kid']
-    if d[0] in ('off', 'denied') and touched:
-        return 'policy: %s member reached (%s) access=%s' % (d[0], d[1] if d[0] == 'denied' else 'switched off', access)
+    if d[0] == 'denied' and touched:
+        return 'policy: denied member reached (%s)' % d[1]
+    if d[0] == 'off' and touched:
+        return 'policy: member reached although %s access is switched off' % access
     if d[0] == 'reach' and exp[0][0] == 'v' and obs[0][0] == 'e':
         return 'policy: allowed %s%s fails with %s' % (access, ' with remapped keyword argument' if d[3] and
                                                        settings['remapping'] else '', obs[0][1])
@@ -572,8 +581,8 @@ def job_policy(tier, switches):
     guard()
     lists, remaps = policy_lists(tier)
     for w, b, r, name, (template, access, kwargs, chained) in itertools.product(lists, lists, remaps, MEMBER_NAMES, ACCESS):
-        if name.startswith('__') and "'N'" not in template:
-            continue                       # not a token (part 1b checks that the lexer rejects it)
+        if name.startswith('__') and "'N'" not in template and 'N(' not in template:
+            continue                       # not a keyword token (part 1b checks that the lexer rejects it)
         if chained and name not in ('kid', 'getkid', 'foo'):
             continue
         judge_policy(res, tuple(switches), w, b, r, name, template, access, kwargs, chained)
@@ -615,9 +624,9 @@ def replay(case):
     if kind == 'form':
         out, found = run(case['text'], {'c': VARIANTS[case['variant']]()})
         ok = not found
-        if case['name'].startswith('__') and dict(TEMPLATES)[case['template']]:
+        if case['name'].startswith('__') and keyword_token(case['template'], dict(TEMPLATES)[case['template']]):
             ok = out[0] == 'lex'
-        return {'observed': {'outcome': repr(out)[:200], 'canary': found}, 'ok': ok,
+        return {'observed': {'outcome': re.sub(r' at 0x[0-9a-f]+', '', repr(out))[:200], 'canary': found}, 'ok': ok,
                 'expected': 'nothing read/called on the canary, no marker; bare __ tokens are lexical errors'}
     if kind == 'scan':
         rec = by[case['def']]
@@ -636,6 +645,6 @@ def replay(case):
         variables.update(gvars)
     variables['c'] = VARIANTS[case['variant']]()
     out, found = run(text, variables)
-    return {'observed': {'text': text, 'outcome': repr(out)[:200], 'canary': found},
+    return {'observed': {'text': text, 'outcome': re.sub(r' at 0x[0-9a-f]+', '', repr(out))[:200], 'canary': found},
             'expected': 'names read on the canary within %s, __getitem__/__call__ never run, no marker' % (INFRA,),
             'ok': not found and text == case['text']}
